@@ -81,7 +81,7 @@ def corpus(seed, count=96):
                 if c.get("type") == "module" and str(c.get("filename", "")).endswith(".wasm") and os.path.exists(os.path.join(spec_dir, c["filename"])):
                     spec.append(c["filename"])
         spec = sorted(set(spec))
-    key = sha(hash_files([os.path.join(VERIF, "tools", "wasmgen.py"), os.path.join(VERIF, "tools", "wasmenc.py")]), str(seed), str(count), str(len(spec)), "v4")
+    key = sha(hash_files([os.path.join(VERIF, "tools", "wasmgen.py"), os.path.join(VERIF, "tools", "wasmenc.py")]), str(seed), str(count), hash_files([os.path.join(spec_dir, f) for f in spec[:200]]), "v5")
     d, ok = cached_dir("xlcorpus", key)
     if ok:
         return d
@@ -104,7 +104,10 @@ def corpus(seed, count=96):
             continue
         for fn in os.listdir(tmp):
             os.unlink(os.path.join(tmp, fn))
-        lines.append("%s - %d %d -" % (path, wasm_function_count(path), os.path.getsize(path)))
+        # self-contained corpus: copy the module (the repo tree may be a scratch copy that disappears)
+        local = "spec_" + os.path.basename(path)
+        shutil.copy(path, os.path.join(d, local))
+        lines.append("%s - %d %d -" % (local, wasm_function_count(path), os.path.getsize(path)))
     shutil.rmtree(tmp, ignore_errors=True)
     with open(os.path.join(d, "corpus.txt"), "a") as f:
         f.write("\n".join(lines) + "\n")
